@@ -587,10 +587,20 @@ func c15r5(p *Program, r *Report) {
 			if f, ok := x.(*ast.ForStmt); ok && loop == nil {
 				// the loop asks Scan for the next row in its condition or in its body (`if !iter.Scan(..) { break }`)
 				scans := false
-				for _, part := range []ast.Node{f.Cond, f.Body} {
-					if part == nil || part == ast.Node((*ast.BlockStmt)(nil)) || part == ast.Node(ast.Expr(nil)) {
-						continue
-					}
+				var parts []ast.Node
+				if f.Init != nil {
+					parts = append(parts, f.Init)
+				}
+				if f.Cond != nil {
+					parts = append(parts, f.Cond)
+				}
+				if f.Post != nil {
+					parts = append(parts, f.Post)
+				}
+				if f.Body != nil {
+					parts = append(parts, f.Body)
+				}
+				for _, part := range parts {
 					inspectNoLit(part, func(y ast.Node) bool {
 						if c, isC := y.(*ast.CallExpr); isC && isCallTo(info, c, "(*Iter).Scan") {
 							if rc := recvExpr(c); rc != nil && exprStr(rc) == recv {
